@@ -1,0 +1,7 @@
+//go:build !verif
+
+package manager
+
+// verifGate is a scheduling hook for the verification harness (build tag `verif`).
+// Without the tag it is an empty function.
+func verifGate(string, ...string) {}
